@@ -27,6 +27,15 @@ def unit(case):
 def tree_case(case, root):
     """case: {'pkg': ['a','b','c'], 'kind': 'plain'|'init'|'main', 'imports': [[level, target|None, [[name, asname], ...]], ...]}"""
     d = root
+    if case.get('link'):
+        # the top-level package is reached through a symbolic link whose target has another name (versioned / vendored installs):
+        # Python names the module after the path it found it under
+        real = os.path.join(root, 'store%d' % case['link'], 'impl_v2')
+        os.makedirs(real, exist_ok=True)
+        d = os.path.join(root, 'site%d' % case['link'])
+        os.makedirs(d, exist_ok=True)
+        if not os.path.lexists(os.path.join(d, case['pkg'][0])):
+            os.symlink(real, os.path.join(d, case['pkg'][0]))
     for comp in case['pkg']:
         d = os.path.join(d, comp)
         os.makedirs(d, exist_ok=True)
